@@ -289,7 +289,8 @@ def _child(plan, k, blob, params):
   here = os.path.dirname(os.path.dirname(os.path.dirname(
       os.path.abspath(__file__))))
   msg = json.dumps({'plan': plan, 'k': k, 'blob': blob.hex(),
-                    'params': [np.asarray(p).tolist() for p in params]})
+                    'params': [np.ascontiguousarray(p).tobytes().hex()
+                               for p in params]})
   env = dict(os.environ)
   env['PYTHONHASHSEED'] = '12345'
   env.pop('XLA_FLAGS', None)
